@@ -256,10 +256,6 @@ impl Model {
         o.save_sauce = self.sauce;
         o
     }
-
-    pub fn has_ctrl(&self) -> bool {
-        self.runs.iter().any(|(_, c)| c.ch < 32)
-    }
 }
 
 pub fn make_font(m: &Model, page: usize) -> BitFont {
